@@ -344,6 +344,12 @@ func execC11Session(in sx.V) sx.V {
 			srv.s2c = append(srv.s2c, f...)
 		}
 		rest := srv.s2c
+		// pieces of the handshake confirmation (the first frame) are sent as
+		// separate TCP segments: pause so that the client's read sees the piece alone
+		confirmation, pauses := 0, 0
+		if len(s2c) > 0 {
+			confirmation = 68 + len(s2c[0].payload)
+		}
 		for _, l := range lens {
 			n := l.I()
 			if n > len(rest) {
@@ -356,6 +362,10 @@ func execC11Session(in sx.V) sx.V {
 				}
 			}
 			rest = rest[n:]
+			if len(srv.s2c)-len(rest) < confirmation && pauses < 4 && n > 0 {
+				pauses++
+				time.Sleep(12 * time.Millisecond)
+			}
 		}
 		if len(rest) > 0 {
 			if _, err := conn.Write(rest); err != nil {
@@ -789,7 +799,18 @@ func genC11(c *Ctx) {
 	for i := 0; i < nSess; i++ {
 		// the first session carries a 64 KiB payload (client -> server only in
 		// the quick tier: the extracted SHA-256 needs 1.6 s per 64 KiB)
-		c11Session(c, r, big, i == 0 || (c.Thorough() && i%50 == 1))
+		c11Session(c, r, big, i == 0 || (c.Thorough() && i%50 == 1), 0)
+	}
+	// the server's handshake confirmation split at every offset (sampled in the quick tier)
+	splits := []int{1, 3, 4, 5, 35, 36, 37, 67}
+	if c.Thorough() {
+		splits = nil
+		for k := 1; k <= 67; k++ {
+			splits = append(splits, k)
+		}
+	}
+	for _, k := range splits {
+		c11Session(c, r, 40, false, k)
 	}
 
 	// --- several goroutines sending on one Connection
@@ -802,7 +823,7 @@ func genC11(c *Ctx) {
 	}
 }
 
-func c11Session(c *Ctx, r *prng.R, big int, forceBig bool) {
+func c11Session(c *Ctx, r *prng.R, big int, forceBig bool, hsSplit int) {
 	sseed, cseed, params := r.Bytes(32), r.Bytes(32), r.Bytes(160)
 	spriv := ed25519.NewKeyFromSeed(sseed)
 	spub := []byte(spriv.Public().(ed25519.PublicKey))
@@ -859,6 +880,15 @@ func c11Session(c *Ctx, r *prng.R, big int, forceBig bool) {
 	var lens []sx.V
 	style := r.Intn(4)
 	rest := s2cTotal
+	if hsSplit > 0 { // the confirmation arrives in two segments, cut after hsSplit bytes
+		style = 4
+		first := 68 + len(s2c[0].payload)
+		if hsSplit >= first {
+			hsSplit = first - 1
+		}
+		lens = append(lens, sx.Nat(hsSplit), sx.Nat(first-hsSplit))
+		rest -= first
+	}
 	for rest > 0 && style > 0 && len(lens) < 400 {
 		n := 1 + r.Intn(rest)
 		if style == 2 {
@@ -880,6 +910,20 @@ func c11Session(c *Ctx, r *prng.R, big int, forceBig bool) {
 		bk = "64k"
 	}
 	class := fmt.Sprintf("session|c2s%d|s2c%d|cut%d|%s", nc, ns, style, bk)
+	if hsSplit > 0 {
+		where := "nonce"
+		switch {
+		case hsSplit < 4:
+			where = "in-length"
+		case hsSplit == 4:
+			where = "after-length"
+		case hsSplit == 36:
+			where = "after-nonce"
+		case hsSplit > 36:
+			where = "checksum"
+		}
+		class = "session|confirmation-split|" + where
+	}
 	out := c.Emit("c11.session", in, class)
 	// property oracle: the reference server accepts the handshake and recovers
 	// the parameters; every payload arrives in order and intact in both directions
